@@ -53,6 +53,11 @@ func (ex *Exec) cutLoop(li *loopInfo, st *State) {
 	if ms.maps && !ms.all {
 		ex.havocMaps(st)
 	}
+	if !ms.all {
+		for _, pk := range ms.pkgs {
+			ex.havocPkgHeaps(st, pk)
+		}
+	}
 	var allocs []*ssa.Alloc
 	for a := range ms.locals {
 		allocs = append(allocs, a)
